@@ -164,3 +164,22 @@ def array_to_bytes(ex, state, arr, n):
     state.assume(z3.Length(t) == n)
     state.assume(z3.ForAll([i], z3.Implies(z3.And(i >= 0, i < n), t[i] == z3.Select(arr, i)), patterns=[t[i]]))
     return t
+
+
+fmt06d_f = z3.Function("fmt06d", z3.IntSort(), z3.StringSort())
+
+
+def fmt06d(v):
+    """f"{v:06d}" for v >= 0 (decimal digits left-padded with zeros to 6 characters) as a defined function symbol:
+    equal numbers give equal strings by congruence; the padding definition is only an axiom"""
+    return fmt06d_f(v)
+
+
+def fmt06d_definition():
+    v = z3.Int("ax_v")
+    s = z3.IntToStr(v)
+    n = z3.Length(s)
+    pad = z3.StringVal("")
+    for k, z in ((5, "0"), (4, "00"), (3, "000"), (2, "0000"), (1, "00000")):
+        pad = z3.If(n == k, z3.StringVal(z), pad)
+    return z3.ForAll([v], z3.Implies(v >= 0, fmt06d_f(v) == z3.Concat(pad, s)), patterns=[fmt06d_f(v)])
